@@ -1,96 +1,130 @@
 (* Props/C19.v — Built-in generators build the documented topologies.
    Statements only; proofs are in Proofs/C19Proofs.v.  The model (Model/C19Series.v) is the repaired
-   generators.py (fixes/C19-1..4) followed by array flattening (Model/Arrays.v) and the bit semantics of
+   generators.py (fixes/C19-1..4, fixes/C19W-1) followed by array flattening (Model/Arrays.v) and the bit semantics of
    slices/concatenations (Model/Resolve.v); `unit_bits m x k p` is the list of nets (signal, bit) of the
    generated module that bit 0, 1, .. of port p of unit k ends on.  All theorems hold for EVERY n >= 2 (no bound),
    every well-formed unit (signal- and bundle-valued ports, any widths) and every ordered pair (a, b) of
-   distinct one-bit signal-valued ports, given by name (a Signal is used through its name only). *)
+   distinct signal-valued ports of ONE width w - one bit or a bus (w >= 1 follows from wf_unit) - given by name
+   (a Signal is used through its name only).  Pairs of different widths: Props/C19W.v (refused at elaboration). *)
 Require Import Hdl21.Base.PyInt Hdl21.Spec.PySlice Hdl21.Model.Slice Hdl21.Model.Resolve Hdl21.Model.Arrays
                Hdl21.Base.Design Hdl21.Spec.C19Topology Hdl21.Model.C19Series Hdl21.Proofs.C19Proofs.
 Open Scope string_scope.
 Open Scope Z_scope.
 
-(* the instance array Series builds *)
-Definition units_of (u : unit) (a b : name) (n : Z) (uname : name) : inst :=
+(* the instance array Series builds (w = the width of the series ports) *)
+Definition units_of (u : unit) (a b : name) (w n : Z) (uname : name) : inst :=
   {| i_name := uname; i_n := n; i_of := TDev unit_dev (unit_io u);
-     i_conns := map (series_conn (N.of_nat (List.length (unit_io u))) n a b) (number (unit_io u) 0%N) |}.
+     i_conns := map (series_conn (N.of_nat (List.length (unit_io u))) ((n - 1) * w) a b) (number (unit_io u) 0%N) |}.
 
 (* 0. no spurious rejection, and the shape of the result: ports = the unit's leaf-level IO (signal- and
-      bundle-valued), one internal bus of width n-1 whose name is no port of the unit, one array of n units;
+      bundle-valued), one internal bus of width (n-1)*w whose name is no port of the unit, one array of n units;
       the name search never runs out of fuel *)
-Theorem C19_series_accepts u a b n : wf_unit u = true -> 2 <= n -> a <> b ->
-  assoc a (u_sigs u) = Some 1 -> assoc b (u_sigs u) = Some 1 ->
-  exists iname uname, series_gen u a b n = Ok (series_module u a b n iname uname) /\
-    m_ports (series_module u a b n iname uname) = unit_io u /\
-    m_sigs (series_module u a b n iname uname) = [(iname, n - 1)] /\
-    m_insts (series_module u a b n iname uname) = [units_of u a b n uname] /\
+Theorem C19_series_accepts u a b w n : wf_unit u = true -> 2 <= n -> a <> b ->
+  assoc a (u_sigs u) = Some w -> assoc b (u_sigs u) = Some w ->
+  exists iname uname, series_gen u a b n = Ok (series_module u a b w n iname uname) /\
+    m_ports (series_module u a b w n iname uname) = unit_io u /\
+    m_sigs (series_module u a b w n iname uname) = [(iname, (n - 1) * w)] /\
+    m_insts (series_module u a b w n iname uname) = [units_of u a b w n uname] /\
     mem iname (map fst (unit_io u)) = false.
 Proof.
-  intros Hwf Hn _ Ha Hb. destruct (series_gen_valid u a b n 1 1 Hwf Hn Ha Hb) as [i [un [H [Hi _]]]].
+  intros Hwf Hn _ Ha Hb. destruct (series_gen_valid u a b n w w Hwf Hn Ha Hb) as [i [un [H [Hi _]]]].
   exists i, un. repeat split; assumption.
 Qed.
 Print Assumptions C19_series_accepts.
 
-(* 1. the ends: unit 0's first series port is the module's port a, unit n-1's second series port is port b *)
-Theorem C19_series_ends u a b n iname uname : wf_unit u = true -> 2 <= n -> a <> b ->
-  assoc a (u_sigs u) = Some 1 -> assoc b (u_sigs u) = Some 1 ->
-  let m := series_module u a b n iname uname in
-  unit_bits m (units_of u a b n uname) 0 a = Ok [(a, 0)] /\
-  unit_bits m (units_of u a b n uname) (n - 1) b = Ok [(b, 0)] /\
-  In (a, 1) (m_ports m) /\ In (b, 1) (m_ports m).
+(* 1. the ends, bit by bit: unit 0's first series port is the module's port a, unit n-1's second series port is port b *)
+Theorem C19_series_ends u a b w n iname uname : wf_unit u = true -> 2 <= n -> a <> b ->
+  assoc a (u_sigs u) = Some w -> assoc b (u_sigs u) = Some w ->
+  let m := series_module u a b w n iname uname in
+  unit_bits m (units_of u a b w n uname) 0 a = Ok (map (pair a) (bits_of w)) /\
+  unit_bits m (units_of u a b w n uname) (n - 1) b = Ok (map (pair b) (bits_of w)) /\
+  In (a, w) (m_ports m) /\ In (b, w) (m_ports m) /\ 1 <= w.
 Proof.
   intros Hwf Hn Hab Ha Hb m. repeat split.
-  - exact (unit_bits_first u a b n iname uname Hwf Hn Hab Ha 0 ltac:(lia)).
-  - pose proof (unit_bits_second u a b n iname uname Hwf Hn Hb (n - 1) ltac:(lia)) as H.
+  - exact (unit_bits_first u a b w n iname uname Hwf Hn Hab Ha 0 ltac:(lia)).
+  - pose proof (unit_bits_second u a b w n iname uname Hwf Hn Ha Hb (n - 1) ltac:(lia)) as H.
     rewrite Z.eqb_refl in H. exact H.
-  - exact (a_in_io u a Ha).
-  - exact (b_in_io u b Hb).
+  - exact (a_in_io u a w Ha).
+  - exact (b_in_io u b w Hb).
+  - exact (w_pos u a w Hwf Ha).
 Qed.
 Print Assumptions C19_series_ends.
 
-(* 2. the chain: for k < n-1, unit k's second series port and unit k+1's first are both bit k of the internal
-      bus, that bus is no port of the module, and no other port of any unit is on that bit *)
-Theorem C19_series_chain u a b n iname uname k : wf_unit u = true -> 2 <= n -> a <> b ->
-  assoc a (u_sigs u) = Some 1 -> assoc b (u_sigs u) = Some 1 ->
+(* 2. the chain, bit by bit: for k < n-1, bit j of unit k's second series port and bit j of unit k+1's first are both
+      bit k*w + j of the internal bus, that bus is no port of the module, and no other port of any unit has a bit on
+      that net (w private nets between each pair of neighbours, (n-1)*w in all) *)
+Theorem C19_series_chain u a b w n iname uname k : wf_unit u = true -> 2 <= n -> a <> b ->
+  assoc a (u_sigs u) = Some w -> assoc b (u_sigs u) = Some w ->
   mem iname (map fst (unit_io u)) = false -> 0 <= k < n - 1 ->
-  let m := series_module u a b n iname uname in
-  let x := units_of u a b n uname in
-  unit_bits m x k b = Ok [(iname, k)] /\ unit_bits m x (k + 1) a = Ok [(iname, k)] /\
+  let m := series_module u a b w n iname uname in
+  let x := units_of u a b w n uname in
+  unit_bits m x k b = Ok (map (fun j => (iname, k * w + j)) (bits_of w)) /\
+  unit_bits m x (k + 1) a = Ok (map (fun j => (iname, k * w + j)) (bits_of w)) /\
   ~ In iname (map fst (m_ports m)) /\
-  forall k' p w l, 0 <= k' < n -> In (p, w) (unit_io u) -> unit_bits m x k' p = Ok l -> In (iname, k) l ->
+  forall j k' p wp l, 0 <= j < w -> 0 <= k' < n -> In (p, wp) (unit_io u) -> unit_bits m x k' p = Ok l -> In (iname, k * w + j) l ->
      (p = b /\ k' = k) \/ (p = a /\ k' = k + 1).
 Proof.
   intros Hwf Hn Hab Ha Hb Hi Hk m x. repeat split.
-  - pose proof (unit_bits_second u a b n iname uname Hwf Hn Hb k ltac:(lia)) as H.
+  - pose proof (unit_bits_second u a b w n iname uname Hwf Hn Ha Hb k ltac:(lia)) as H.
     assert (k =? n - 1 = false) as E by lia. rewrite E in H. exact H.
-  - pose proof (unit_bits_first u a b n iname uname Hwf Hn Hab Ha (k + 1) ltac:(lia)) as H.
+  - pose proof (unit_bits_first u a b w n iname uname Hwf Hn Hab Ha (k + 1) ltac:(lia)) as H.
     assert (k + 1 =? 0 = false) as E by lia. rewrite E in H. replace (k + 1 - 1) with k in H by lia. exact H.
   - apply mem_false_iff. exact Hi.
-  - intros k' p w l Hk' Hin Hl Hin'.
-    destruct (internal_bit_private u a b n iname uname Hwf Hn Hab Ha Hb Hi k k' p w l Hk' Hin Hl Hin') as [[? [? _]]|[? ?]]; auto.
+  - intros j k' p wp l Hj Hk' Hin Hl Hin'.
+    destruct (internal_bit_private u a b w n iname uname Hwf Hn Hab Ha Hb Hi k j k' p wp l Hk' Hj Hin Hl Hin') as [[? [? _]]|[? ?]]; auto.
 Qed.
 Print Assumptions C19_series_chain.
 
-(* 3. every other port of every unit is the same-named port of the module, all bits in order *)
-Theorem C19_series_parallel u a b n iname uname k p w : wf_unit u = true -> 2 <= n ->
-  In (p, w) (unit_io u) -> p <> a -> p <> b ->
-  let m := series_module u a b n iname uname in
-  unit_bits m (units_of u a b n uname) k p = Ok (map (pair p) (bits_of w)) /\ In (p, w) (m_ports m).
+(* 2'. the one-bit reading of 2. (w = 1: the chain net k is bit k of the bus) *)
+Theorem C19_series_chain_one_bit u a b n iname uname k : wf_unit u = true -> 2 <= n -> a <> b ->
+  assoc a (u_sigs u) = Some 1 -> assoc b (u_sigs u) = Some 1 ->
+  mem iname (map fst (unit_io u)) = false -> 0 <= k < n - 1 ->
+  let m := series_module u a b 1 n iname uname in
+  let x := units_of u a b 1 n uname in
+  unit_bits m x k b = Ok [(iname, k)] /\ unit_bits m x (k + 1) a = Ok [(iname, k)] /\
+  ~ In iname (map fst (m_ports m)) /\
+  forall k' p wp l, 0 <= k' < n -> In (p, wp) (unit_io u) -> unit_bits m x k' p = Ok l -> In (iname, k) l ->
+     (p = b /\ k' = k) \/ (p = a /\ k' = k + 1).
+Proof.
+  intros Hwf Hn Hab Ha Hb Hi Hk m x.
+  destruct (C19_series_chain u a b 1 n iname uname k Hwf Hn Hab Ha Hb Hi Hk) as [H1 [H2 [H3 H4]]].
+  change (bits_of 1) with [0] in H1, H2. cbn [map] in H1, H2. replace (k * 1 + 0) with k in H1, H2 by lia.
+  repeat split; [exact H1|exact H2|exact H3|].
+  intros k' p wp l Hk' Hin Hl Hin'. apply (H4 0 k' p wp l ltac:(lia) Hk' Hin Hl). replace (k * 1 + 0) with k by lia. exact Hin'.
+Qed.
+Print Assumptions C19_series_chain_one_bit.
+
+(* 3. every other port of every unit is the same-named port of the module, all bits in order (whatever the width of
+      the internal bus: no hypothesis on the series ports) *)
+Theorem C19_series_parallel u a b w n iname uname k p wp : wf_unit u = true -> 2 <= n ->
+  In (p, wp) (unit_io u) -> p <> a -> p <> b ->
+  let m := series_module u a b w n iname uname in
+  unit_bits m (units_of u a b w n uname) k p = Ok (map (pair p) (bits_of wp)) /\ In (p, wp) (m_ports m).
 Proof.
   intros Hwf Hn Hin Hpa Hpb m. split; [|exact Hin].
-  exact (unit_bits_parallel u a b n iname uname Hwf Hn k p w Hin Hpa Hpb).
+  exact (unit_bits_parallel u a b ((n - 1) * w) n iname uname Hwf Hn k p wp Hin Hpa Hpb).
 Qed.
 Print Assumptions C19_series_parallel.
 
 (* 4. all of 1-3 at once: the net of every bit of every unit port is the one Spec/C19Topology.v names
-      (series_key), under the injective reading "chain k = bit k of the internal bus" *)
-Theorem C19_series_meets_spec u a b n iname uname k p w :
-  wf_unit u = true -> 2 <= n -> a <> b -> assoc a (u_sigs u) = Some 1 -> assoc b (u_sigs u) = Some 1 ->
-  mem iname (map fst (unit_io u)) = false -> 0 <= k < n -> In (p, w) (unit_io u) ->
-  unit_bits (series_module u a b n iname uname) (units_of u a b n uname) k p
-  = Ok (map (fun j => net_of iname (series_key n a b k p j)) (bits_of w)).
-Proof. exact (series_model_meets_spec u a b n iname uname k p w). Qed.
+      (series_key), under the injective reading "bit j of chain k = bit k*w + j of the internal bus" *)
+Theorem C19_series_meets_spec u a b w n iname uname k p wp :
+  wf_unit u = true -> 2 <= n -> a <> b -> assoc a (u_sigs u) = Some w -> assoc b (u_sigs u) = Some w ->
+  mem iname (map fst (unit_io u)) = false -> 0 <= k < n -> In (p, wp) (unit_io u) ->
+  unit_bits (series_module u a b w n iname uname) (units_of u a b w n uname) k p
+  = Ok (map (fun j => net_of iname w (series_key n a b k p j)) (bits_of wp)).
+Proof. exact (series_model_meets_spec u a b w n iname uname k p wp). Qed.
 Print Assumptions C19_series_meets_spec.
+
+(* 4'. that reading IS injective on the keys of the stack (port keys of unit ports, chain keys with bit index < w):
+       different keys are different nets of the module, so 4. determines the partition *)
+Theorem C19_net_of_injective iname w (io : list (name * Z)) k1 k2 :
+  mem iname (map fst io) = false ->
+  (forall p j, k1 = KPort p j -> In p (map fst io)) -> (forall p j, k2 = KPort p j -> In p (map fst io)) ->
+  (forall k j, k1 = KChain k j -> 0 <= j < w) -> (forall k j, k2 = KChain k j -> 0 <= j < w) ->
+  net_of iname w k1 = net_of iname w k2 -> k1 = k2.
+Proof. exact (net_of_injective iname w io k1 k2). Qed.
+Print Assumptions C19_net_of_injective.
 
 (* 5. nser = 1 is a plain wrapper, whatever the series ports; nser < 1 is rejected *)
 Theorem C19_series_one_is_wrapper u a b : series_gen u a b 1 = wrapper_gen u.
@@ -143,8 +177,24 @@ Example C19_ex_series :
                            [[("i_", 0)]; [("g", 0)]; [("i_", 1)]; [("i", 0); ("i", 1)]; [("b_p", 0)]; [("b_q", 0); ("b_q", 1)]];
                            [[("i_", 1)]; [("g", 0)]; [("s", 0)]; [("i", 0); ("i", 1)]; [("b_p", 0)]; [("b_q", 0); ("b_q", 1)]] ].
 Proof. eexists. eexists. repeat split. Qed.
+(* series ports of different widths ("d" one bit, "i" two): the generator returns a module, elaboration refuses it *)
 Example C19_ex_wide_rejected : (m <- series_gen ex_unit "d" "i" 3 ;; all_unit_bits m) = Error EWidth.
 Proof. reflexivity. Qed.
 Example C19_ex_spec : spec_series 2 [("p", 1); ("n", 1)] "p" "n"
   = [KPort "p" 0; KPort "n" 0; KPort "p" 0; KChain 0 0; KChain 0 0; KPort "n" 0].
+Proof. reflexivity. Qed.
+(* two-bit series ports: three units, a four-bit private bus, bit j of unit k's "y" on bit 2k + j *)
+Definition ex_wide_unit : unit := {| u_sigs := [("x", 2); ("c", 1); ("y", 2)]; u_buns := [] |}.
+Example C19_ex_wide_wf : wf_unit ex_wide_unit = true /\ assoc "x" (u_sigs ex_wide_unit) = Some 2 /\ assoc "y" (u_sigs ex_wide_unit) = Some 2 /\
+  valid_series ex_wide_unit "x" "y" 3 = true.
+Proof. repeat split. Qed.
+Example C19_ex_wide_series :
+  exists m, series_gen ex_wide_unit "x" "y" 3 = Ok m /\ m_sigs m = [("i", 4)] /\
+    all_unit_bits m = Ok [ [[("x", 0); ("x", 1)]; [("c", 0)]; [("i", 0); ("i", 1)]];
+                           [[("i", 0); ("i", 1)]; [("c", 0)]; [("i", 2); ("i", 3)]];
+                           [[("i", 2); ("i", 3)]; [("c", 0)]; [("y", 0); ("y", 1)]] ].
+Proof. eexists. repeat split. Qed.
+Example C19_ex_wide_spec : spec_series 2 [("x", 2); ("y", 2)] "x" "y"
+  = [KPort "x" 0; KPort "x" 1; KPort "y" 0; KPort "y" 1;
+     KPort "x" 0; KPort "x" 1; KChain 0 0; KChain 0 1;  KChain 0 0; KChain 0 1; KPort "y" 0; KPort "y" 1].
 Proof. reflexivity. Qed.
